@@ -36,26 +36,34 @@ NAMES = ["a", "b", "user", "count", "num", "n2"]
 def gen_block(rng):
     ndecl = rng.randint(0, 3)
     names = rng.sample(NAMES, ndecl)
-    plural = rng.random() < 0.4
+    plural = rng.random() < 0.45
     count_name = None
+    explicit = False
     decl = [(n, "src_" + n) for n in names]
     data = {}
     if plural:
-        k = rng.random()
-        if k < 0.4:
-            count_name = "count"
-        elif k < 0.7:
-            count_name = "num"
+        # at least one declared variable; any declared variable may be the count: the FIRST one implicitly,
+        # or the one named by {% pluralize VAR %}; names (incl. the literal `num`) and positions vary freely
+        if not decl:
+            decl = [(rng.choice(NAMES), None)]
+            decl = [(decl[0][0], "src_" + decl[0][0])]
+        if rng.random() < 0.35 and "num" not in [d[0] for d in decl]:
+            decl.insert(rng.randint(0, len(decl)), ("num", "src_num"))
+        ints = set(rng.sample(range(len(decl)), rng.randint(1, len(decl))))
+        ints.add(0)
+        for i in ints:
+            data[decl[i][1]] = rng.choice([0, 1, 1, 2, 5, 40])
+        if rng.random() < 0.5:
+            explicit = True
+            count_name = decl[rng.choice(sorted(ints))][0]
         else:
-            count_name = rng.choice(["n2", "count"])
-        decl = [(count_name, "src_" + count_name)] + [(n, s) for n, s in decl if n != count_name]
-        data["src_" + count_name] = rng.choice([0, 1, 1, 2, 5])
+            count_name = decl[0][0]
     free = [n for n in NAMES if n not in [d[0] for d in decl]]
 
     def body():
         ps = []
         for _ in range(rng.randint(1, 4)):
-            if rng.random() < 0.6:
+            if rng.random() < 0.55:
                 ps.append(("t", rng.choice(TEXTS)))
             else:
                 pool = [d[0] for d in decl] + (rng.sample(free, 1) if free and rng.random() < 0.3 else [])
@@ -85,7 +93,7 @@ def gen_block(rng):
             data[n] = rng.choice(VALUES)
     markup_vals = {k for k in data if isinstance(data[k], str) and rng.random() < 0.2}
     return {"decl": decl, "sing": sing, "plur": plur, "ctx": ctx, "trim": trim, "data": data,
-            "markup": sorted(markup_vals), "count": count_name}
+            "markup": sorted(markup_vals), "count": count_name, "explicit": explicit}
 
 
 def print_block(b):
@@ -102,8 +110,12 @@ def print_block(b):
         return "".join(p[1] if p[0] == "t" else "{{ " + p[1] + " }}" for p in ps)
     s = head + pr(b["sing"])
     if b["plur"] is not None:
-        s += "{% pluralize %}" + pr(b["plur"])
+        s += ("{% pluralize " + b["count"] + " %}" if b.get("explicit") else "{% pluralize %}") + pr(b["plur"])
     return s + "{% endtrans %}"
+
+
+def count_value(b):
+    return b["data"][dict(b["decl"])[b["count"]]]
 
 
 def block_vars(b):
@@ -128,7 +140,7 @@ def model_line(b, style, ae, policy_trim):
             "none" if b["ctx"] is None else enc(b["ctx"]), str(len(b["sing"]))]
     toks += [p[0] + ":" + enc(p[1]) for p in b["sing"]]
     if b["plur"] is not None:
-        n = b["data"]["src_" + b["count"]]
+        n = count_value(b)
         toks += ["1", str(len(b["plur"]))] + [p[0] + ":" + enc(p[1]) for p in b["plur"]]
         toks += ["1" if n == 1 else "0", enc(str(n))]
     else:
@@ -146,7 +158,7 @@ def spec_text(b, ae, policy_trim):
     stripped, singular iff count == 1, values escaped under autoescape unless already Markup"""
     import html
     ps = b["sing"]
-    if b["plur"] is not None and b["data"]["src_" + b["count"]] != 1:
+    if b["plur"] is not None and count_value(b) != 1:
         ps = b["plur"]
     vals = {n: (v, mk) for n, v, mk in block_vars(b)}
     trim = b["trim"] if b["trim"] is not None else policy_trim
